@@ -141,6 +141,70 @@ def run_source_case(case):
     return None
 
 
+def _result_source(kind, npartitions):
+    import numpy as np
+    import pandas as pd
+
+    import dask_expr as dx
+
+    n = 12
+    ref = pd.DataFrame({"x": np.arange(n, dtype="int64") % 3, "y": np.arange(n, dtype="float64")})
+    if kind == "from_pandas":
+        return dx.from_pandas(ref.copy(deep=True), npartitions=npartitions), ref
+    if kind == "from_dict":
+        return dx.from_dict({"x": list(ref.x), "y": list(ref.y)}, npartitions=npartitions), ref
+    if kind == "from_array":
+        arr = np.stack([ref.x.to_numpy().astype("float64"), ref.y.to_numpy()], axis=1)
+        return dx.from_array(arr, chunksize=n // npartitions, columns=["x", "y"]), ref.astype("float64")
+    raise KeyError(kind)
+
+
+def _tag(df):
+    df["flag"] = df["y"] > 3  # a user function that modifies the partition object it was handed
+    return df
+
+
+def run_result_case(case):
+    """What a compute() returned, or what a task was handed, belongs to its receiver: changing it in place must not
+    leak into the collection (source partitions are fresh slices of a private copy).  Single-partition sources are
+    the delicate case: nothing has to be sliced or concatenated there."""
+    import dask
+
+    df, ref = _result_source(case["source"], case["npartitions"])
+    total = df.y.sum()
+    how = case["how"]
+    if how == "owner":
+        first = df.compute()
+        first["z"] = 1
+        first.iloc[0, 1] = 99.0
+        first.index.name = "row"
+    elif how == "partition":
+        parts = dask.compute(*df.to_delayed())
+        parts[0]["z"] = 1
+        parts[0].iloc[0, 1] = 99.0
+    elif how == "udf":
+        df.map_partitions(_tag).compute()
+    elif how == "values":
+        first = df.compute()
+        try:
+            first["y"].to_numpy()[:] = -1.0  # writes through a buffer if one is shared
+        except ValueError:
+            pass  # read-only buffer: nothing can leak
+    second = df.compute()
+    if list(second.columns) != list(ref.columns):
+        return f"after the receiver changed a computed result in place ({how}) the collection computes columns {list(second.columns)}"
+    if second.index.name is not None or not second.reset_index(drop=True).equals(ref.reset_index(drop=True)):
+        return f"after the receiver changed a computed result in place ({how}) a second compute() differs: {e2e.describe(second, 4)}"
+    if float(total.compute()) != float(ref.y.sum()):
+        return f"after the receiver changed a computed result in place ({how}) y.sum() is {float(total.compute())} instead of {float(ref.y.sum())}"
+    return None
+
+
+def _result_cases(ctx):
+    return [{"kind": "result", "source": s, "npartitions": n, "how": h}
+            for s in ("from_pandas", "from_dict", "from_array") for n in (1, 3) for h in ("owner", "partition", "udf", "values")]
+
+
 def _source_cases(ctx):
     cases = []
     for srt in (True, False):
@@ -164,6 +228,16 @@ def support(ctx, broken):
             sup.failures.append(Failure(sig={"kind": "source", "sort": case["sort"], "sorted": case["sorted"]}, case=case, detail=msg))
             if len(sup.failures) >= 3:
                 return sup
+    for case in _result_cases(ctx):
+        try:
+            msg = run_result_case(case)
+        except Exception as ex:  # noqa: BLE001
+            msg = f"raised {type(ex).__name__}: {str(ex)[:200]}"
+        sup.executed += 1
+        sup.count("result")
+        if msg:
+            sup.failures.append(Failure(sig={"kind": "result", "source": case["source"], "how": case["how"], "single_partition": case["npartitions"] == 1},
+                                        case=case, detail=msg))
     for p in _cases(ctx):
         for fuse in (True, False) if (not ctx.quick or p.families[-1] == "shared") else (True,):
             case = {"program": p.name, "fuse": fuse, "quick": ctx.quick, "threads": [1, 4, 16] if ctx.quick else [1, 2, 4, 8, 16]}
@@ -189,6 +263,9 @@ def replay(case):
 
     if case.get("kind") == "source":
         msg = run_source_case(case)
+        return Failure(sig={}, case=case, detail=msg) if msg else None
+    if case.get("kind") == "result":
+        msg = run_result_case(case)
         return Failure(sig={}, case=case, detail=msg) if msg else None
     msg = run_case(case, random.Random(0))
     return Failure(sig={}, case=case, detail=msg) if msg else None
